@@ -412,10 +412,10 @@ def stored_image_cases(ctx, exe, fix):
         for f, v in cand:
             fields.append('set:%d:%s:%d' % (s, f, v))
     rnd.shuffle(fields)
-    single = fields if ctx.thorough else fields[:40]
+    single = fields if ctx.thorough else fields[:24]
     for m in single:
         specs.append((nw, 0, [m]))
-    for _ in range(200 if ctx.thorough else 25):                   # two or three simultaneous mutations
+    for _ in range(200 if ctx.thorough else 12):                   # two or three simultaneous mutations
         specs.append((nw, 0, rnd.sample(fields, rnd.choice([2, 2, 3]))))
     recs = run_restarts(ctx, exe, wd, 'c57', specs, 5)
     cases, descr = [], []
